@@ -26,7 +26,7 @@ META = {
     },
 }
 
-CLASSES = ["implicit", "explicit", "span", "zero", "nested", "nested_explicit", "span-hostile", "wide", "long", "deepnest"]
+CLASSES = ["implicit", "explicit", "span", "zero", "nested", "nested_explicit", "span-hostile", "wide", "long", "deepnest", "block_explicit", "block_explicit_je"]
 
 
 def plan(tier: str, seed: int) -> List[Dict[str, Any]]:
@@ -103,6 +103,18 @@ def run_shard(shard: Dict[str, Any]) -> Acc:
         acc.hist("max_reps", st["max_reps"])
         nontrivial = common.program_nontrivial_c01(prog)
         acc.case(bp.phash(prog), nontrivial, sample=prog if i < 40 else None)
+        if cls == "block_explicit_je":
+            # known finding (DESIGN.md 9.2): a sub-circuit added through add_operation with a JOINED_END relation hands that relation
+            # to its head operations, each of which then ENDS with the reference instead of starting with the block.  The class
+            # exists to keep the finding observable; everything it reports is keyed by that mechanism.
+            sub = Acc()
+            common.guarded(sub, check_program, prog, sub, case={"program": prog})
+            acc.merge_counts(sub.counters)
+            acc.count("explicit_joined_end_block_programs")
+            for f in sub.findings:
+                acc.finding("explicit-block/JOINED_END", "a sub-circuit with an explicit JOINED_END relation does not end with its reference: its head operations do (" + f["sig"] + ")",
+                            f["case"], f["detail"])
+            continue
         common.guarded(acc, check_program, prog, acc, case={"program": prog})
     return acc
 
